@@ -31,7 +31,9 @@ pub fn level_sequences(n: usize) -> Vec<Vec<u16>> {
 
 fn forest_sprite(levels: &[u16], vis_mask: u64) -> Sprite {
     let n = levels.len();
-    let mut sp = Sprite::blank(n as u16, 1, Fmt::Rgba, 1);
+    // very large forests carry no pixels (x offsets are i16, the canvas u16)
+    let pixels = n <= 20_000;
+    let mut sp = Sprite::blank(if pixels { n as u16 } else { 1 }, 1, Fmt::Rgba, 1);
     for i in 0..n {
         let has_child = i + 1 < n && levels[i + 1] > levels[i];
         let mut l = LayerM::image(&format!("l{}", i));
@@ -39,7 +41,7 @@ fn forest_sprite(levels: &[u16], vis_mask: u64) -> Sprite {
         l.flags = 2 | ((vis_mask >> (i % 64)) & 1) as u16;
         if has_child {
             l.kind = LayerKind::Group;
-        } else {
+        } else if pixels {
             // unique opaque colour at x = layer index
             let col = [(i * 37 % 251) as u8 + 1, (i / 251) as u8, (i % 7) as u8 * 30 + 5, 255];
             sp.cels.insert((0, i as u16), CelM { x: i as i16, y: 0, opacity: 255, content: CelContentM::Image { w: 1, h: 1, pixels: col.to_vec() }, ud: None });
@@ -84,6 +86,9 @@ fn check_forest(sp: &Sprite, what: &str) -> (u64, Option<Violation>) {
             return (leaves, mk("is-visible", format!("layer {} is_visible {} expected {} (levels {:?} flags {:?})", i, l.is_visible(), visible[i], levels, flags)));
         }
         leaves += 2;
+    }
+    if n > 20_000 {
+        return (leaves, None);
     }
     let img = ase.frame(0).image();
     if img.width() as usize != n.min(65535) || img.height() != 1 {
@@ -147,13 +152,15 @@ pub fn run(ctx: &Ctx) -> i32 {
             0 => rng.range(9, 40),
             1 => rng.range(40, 400),
             2 => rng.range(400, 2000),
-            _ => rng.range(9, 200),
+            _ => rng.range(9, 1200),
         } as usize;
+        // a few forests with more layers than fit in 16 bits (parents / visibility only)
+        let n = if i % 500 == 499 { rng.range(65_536, 70_000) as usize } else { n };
         let deep = i % 4 == 3;
         let mut levels: Vec<u16> = Vec::with_capacity(n);
         for k in 0..n {
             let max = if k == 0 { 0 } else { levels[k - 1] + 1 };
-            let l = if deep && rng.chance(9, 10) { max } else { rng.range(0, max as i64) as u16 };
+            let l = if deep && rng.chance(19, 20) { max } else { rng.range(0, max as i64) as u16 };
             levels.push(l);
         }
         let mut sp = forest_sprite(&levels, 0);
